@@ -82,6 +82,26 @@ func countKind(n *gen.JSNode, kind string) int {
 	return c
 }
 
+// hasKindOutsideFunctions: like hasKind but does not look into function, method, arrow and class bodies.
+func hasKindOutsideFunctions(n *gen.JSNode, kind string) bool {
+	if n == nil {
+		return false
+	}
+	switch n.K {
+	case "funcdecl", "funcexpr", "arrow", "class", "propmethod", "propaccessor", "object":
+		return false
+	}
+	if n.K == kind {
+		return true
+	}
+	for _, c := range n.Kids {
+		if hasKindOutsideFunctions(c, kind) {
+			return true
+		}
+	}
+	return false
+}
+
 func hasKind(n *gen.JSNode, kinds ...string) bool {
 	if n == nil {
 		return false
@@ -126,13 +146,25 @@ func c03Spell(t *fw.T) {
 	if inlineOK {
 		o.NoModuleItems = true
 		o.YieldName = o.CtxNames // (script code: yield is an identifier outside generators and strict code)
+		o.TopReturn = r.Intn(4) == 0
 	}
 	prog := gen.JSProgram(r, o)
+	topReturn := false
+	for _, st := range prog.Root.Kids {
+		if hasKindOutsideFunctions(st, "return") {
+			topReturn = true
+		}
+	}
 	ref, _ := gen.JSSpell(prog, c03RefStyle)
 	t.Desc(&c03Case{Kind: "spell", Src: []byte(ref), Style: "reference"})
 	opts := []js.Options{{}, {WhileToFor: true}}
 	if inlineOK && !hasKind(prog.Root, "directive") {
 		opts = append(opts, js.Options{Inline: true}, js.Options{Inline: true, WhileToFor: true})
+	}
+	if topReturn {
+		// a return outside functions belongs to the body of an inline event handler only
+		opts = []js.Options{{Inline: true}, {Inline: true, WhileToFor: true}}
+		t.Count("inline.top-level-return", 1)
 	}
 	refStr := map[js.Options]string{}
 	refAST := map[js.Options]*js.AST{}
@@ -153,29 +185,35 @@ func c03Spell(t *fw.T) {
 			return
 		}
 	}
+	base := js.Options{}
+	if topReturn {
+		base = js.Options{Inline: true}
+	}
+	w2f := base
+	w2f.WhileToFor = true
 	// Inline only changes what is allowed at the top level
-	if s, ok := refStr[js.Options{Inline: true}]; ok && s != refStr[js.Options{}] {
-		t.Failf("Inline changes the tree: %s vs %s", firstDiff(s, refStr[js.Options{}]), "")
+	if s, ok := refStr[js.Options{Inline: true}]; ok && s != refStr[base] {
+		t.Failf("Inline changes the tree: %s vs %s", firstDiff(s, refStr[base]), "")
 		return
 	}
 	// WhileToFor: equals the tree of the generator-rewritten program
 	if hasKind(prog.Root, "while") {
 		p2 := &gen.JSProg{Root: whileToFor(prog.Root)}
 		ref2, _ := gen.JSSpell(p2, c03RefStyle)
-		s2, _, err := jsParseString(ref2, js.Options{})
+		s2, _, err := jsParseString(ref2, base)
 		if err != nil {
 			t.Desc(&c03Case{Kind: "spell", Src: []byte(ref2), Style: "reference(while->for)"})
 			t.Failf("valid program rejected (while rewritten to for): %v", oneLineErr(err))
 			return
 		}
-		if got := refStr[js.Options{WhileToFor: true}]; got != s2 {
+		if got := refStr[w2f]; got != s2 {
 			t.Desc(&c03Case{Kind: "spell", Src: []byte(ref), Ref: []byte(ref2), Opts: "WhileToFor"})
 			t.Failf("WhileToFor tree differs from the tree of the equivalent for-loop program: %s", firstDiff(got, s2))
 			return
 		}
 		t.Count("whiletofor.compared", 1)
-	} else if refStr[js.Options{WhileToFor: true}] != refStr[js.Options{}] {
-		t.Failf("WhileToFor changes a program without while loops: %s", firstDiff(refStr[js.Options{WhileToFor: true}], refStr[js.Options{}]))
+	} else if refStr[w2f] != refStr[base] {
+		t.Failf("WhileToFor changes a program without while loops: %s", firstDiff(refStr[w2f], refStr[base]))
 		return
 	}
 	for _, st := range c03Styles(r) {
